@@ -51,6 +51,63 @@ def check(ck):
               c06.r06_1, c16.r16_7)
     H.hierarchy_depth_shape(ck, 'R15.11')
     r15_13(ck)
+    r15_15(ck)
+    ck.rule('R15.14', 'recursions hand their mode parameters on: '
+            '_get_composite_state_recur (state_type, config), deep_compare '
+            'and deep_merge_check (conflict detection of declarations) '
+            'pass every defaulted parameter they read to the recursive '
+            'call')
+    H.recursion_forwards(ck, 'R15.14', [
+        ('_get_composite_state_recur', 'core.composer'),
+        ('deep_compare', 'library.dict_utils'),
+        ('deep_merge_check', 'library.dict_utils'),
+        ('deep_merge', 'library.dict_utils')])
+
+
+def r15_15(ck):
+    ck.rule('R15.15', 'two declarations of a dictionary value conflict '
+            'when either has a key the other lacks: deep_compare looks at '
+            'the keys of BOTH dictionaries (symmetric difference, equality '
+            'of the key sets, or a membership test in each direction)')
+    f = ck.fn('deep_compare', 'library.dict_utils')
+    p1, p2 = A.params_of(f.node)[:2]
+
+    def mentions(e, p):
+        return any(isinstance(x, ast.Name) and x.id == p
+                   for x in ast.walk(e))
+    sym = False
+    for n in ast.walk(f.node):
+        if isinstance(n, ast.BinOp) and isinstance(n.op, ast.BitXor):
+            if (mentions(n.left, p1) and mentions(n.right, p2)) or (
+                    mentions(n.left, p2) and mentions(n.right, p1)):
+                sym = True
+        if isinstance(n, ast.Compare) and len(n.ops) == 1 and isinstance(
+                n.ops[0], (ast.Eq, ast.NotEq)):
+            l, r = n.left, n.comparators[0]
+            keyish = lambda e: any(  # noqa: E731
+                isinstance(x, ast.Call) and A.call_name(x) in (
+                    'keys', 'set', 'len', 'sorted') for x in ast.walk(e))
+            if keyish(l) and keyish(r) and (
+                    (mentions(l, p1) and mentions(r, p2)) or
+                    (mentions(l, p2) and mentions(r, p1))):
+                sym = True
+    # or: a membership test in each direction
+    dirs = set()
+    for n in ast.walk(f.node):
+        if isinstance(n, ast.Compare) and len(n.ops) == 1 and isinstance(
+                n.ops[0], (ast.In, ast.NotIn)):
+            c0 = n.comparators[0]
+            if mentions(c0, p1):
+                dirs.add(1)
+            if mentions(c0, p2):
+                dirs.add(2)
+    ck.require(sym or dirs == {1, 2}, 'R15.15', f, f.node.name,
+               'the key sets are compared in both directions',
+               'deep_compare only notices keys of `%s` that `%s` lacks: a '
+               'later declaration that is a strict superset of an earlier '
+               'one (an empty dict against any dict) is accepted silently '
+               'instead of raising the conflict' % (
+                   p1 if 2 in dirs else p2, p2 if 2 in dirs else p1))
 
 
 def r15_13(ck):
@@ -90,6 +147,38 @@ def r15_13(ck):
                        'state its processes contribute is dropped' % (
                            A.unparse(a) if a is not None else 'nothing',
                            param), c)
+    # a key is a nested branch / a process when EITHER dictionary says so
+    cfg = cfg_of(f.node)
+
+    def from_lookup(e, param, at):
+        return derives(f.node, e, lookup_of(param), at=at)
+    for c in rec:
+        st = c
+        while st is not None and not isinstance(st, ast.If):
+            st = getattr(st, '_parent', None)
+        if st is None:
+            continue
+        names = [x for x in ast.walk(st.test) if isinstance(x, ast.Name)]
+        ok = any(from_lookup(x, procs, st) for x in names) and any(
+            from_lookup(x, steps, st) for x in names)
+        ck.require(ok, 'R15.13', f, st.test,
+                   'the nested-branch test looks at the processes entry '
+                   'and at the steps entry',
+                   'a key counts as a nested branch only by `%s`: a branch '
+                   'that exists only among the steps (or only among the '
+                   'processes) is not descended into' % A.short(
+                       st.test, 60), st)
+    for c in A.calls_in(f.node, ('initial_state', 'default_state')):
+        r = A.call_receiver(c)
+        if r is None or A.is_name(r, 'self'):
+            continue
+        ok = from_lookup(r, procs, c) and from_lookup(r, steps, c)
+        ck.require(ok, 'R15.13', f, c,
+                   'the process asked for its state is the processes entry '
+                   'or, failing that, the steps entry',
+                   'the node asked for its state (%s) comes from one of the '
+                   'two dictionaries only: a step (or a process) at that '
+                   'key contributes no initial state' % A.unparse(r), c)
     # every key of both dictionaries is visited
     loops = [l for l in A.walk_no_nested(f.node) if isinstance(l, ast.For)]
     ok = any(derives(f.node, l.iter, lambda x: isinstance(x, ast.Name)
